@@ -5,11 +5,13 @@ package gnet
 // validated by TLC against specs/LBTrace.tla.
 
 import (
+	"context"
 	"fmt"
 	"hash/crc32"
 	"net"
 	"os"
 	"testing"
+	"time"
 
 	"github.com/panjf2000/gnet/v2/internal/vsup"
 )
@@ -145,6 +147,100 @@ func TestVerifLBTrace(t *testing.T) {
 				tr.Emit(map[string]any{"ev": "Next", "addr": fmt.Sprintf("%T|%s", a, a.String()), "loop": idx + 1})
 				rep.Eval(fmt.Sprintf("%s/%d/%d", policy, n, s%8))
 			}
+		}
+	}
+	if err := tr.Close(); err != nil {
+		t.Fatal(err)
+	}
+	rep.Set("events", tr.N)
+	if err := rep.Write(); err != nil {
+		t.Fatal(err)
+	}
+}
+
+// TestVerifRegisterLB: connections that reach the balancer through Engine.Register (the other way in besides the
+// acceptor).  Every registration below concerns the same remote address -- one listening peer -- so with the
+// Source-Addr-Hash policy they are all served by one loop, whatever else the context carries; the decisions are
+// appended to the same kind of trace as the balancers' own and validated against LB.tla (HashNext).
+type lbRegHandler struct {
+	BuiltinEventEngine
+	eng    Engine
+	booted chan struct{}
+}
+
+func (h *lbRegHandler) OnBoot(e Engine) Action { h.eng = e; close(h.booted); return None }
+
+func TestVerifRegisterLB(t *testing.T) {
+	tr, err := vsup.OpenTrace(os.Getenv("VERIF_TRACE"))
+	if err != nil {
+		t.Fatal(err)
+	}
+	rep := vsup.NewReport("lb-register")
+	back, err := net.Listen("tcp", "127.0.0.1:0")
+	if err != nil {
+		t.Fatal(err)
+	}
+	defer back.Close()
+	go func() {
+		for {
+			c, err := back.Accept()
+			if err != nil {
+				return
+			}
+			go func() { buf := make([]byte, 64); _, _ = c.Read(buf); c.Close() }()
+		}
+	}()
+	backAddr := back.Addr().(*net.TCPAddr)
+	elsewhere := &net.TCPAddr{IP: net.IPv4(127, 0, 0, 1), Port: backAddr.Port ^ 1}
+	for _, loops := range []int{2, 5, 8} {
+		h := &lbRegHandler{booted: make(chan struct{})}
+		runErr := make(chan error, 1)
+		go func() {
+			runErr <- Run(h, fmt.Sprintf("tcp://127.0.0.1:%d", freePort()), WithNumEventLoop(loops), WithLoadBalancing(SourceAddrHash), WithLogger(nullLogger{}))
+		}()
+		select {
+		case <-h.booted:
+		case <-time.After(10 * time.Second):
+			t.Fatalf("engine did not boot")
+		}
+		tr.Emit(map[string]any{"ev": "Start", "n": loops, "policy": "hash"})
+		for _, how := range []string{"conn", "conn+addr", "conn+other-addr", "addr", "conn+other-addr", "conn"} {
+			ctx := context.Background()
+			if how != "addr" {
+				nc, err := net.Dial("tcp", backAddr.String())
+				if err != nil {
+					t.Fatal(err)
+				}
+				ctx = NewNetConnContext(ctx, nc)
+			}
+			switch how {
+			case "conn+addr", "addr":
+				ctx = NewNetAddrContext(ctx, backAddr)
+			case "conn+other-addr":
+				ctx = NewNetAddrContext(ctx, elsewhere)
+			}
+			ch, err := h.eng.Register(ctx)
+			if err != nil {
+				rep.Violation("lb/register/error", fmt.Sprintf("Register(%s): %v", how, err), nil)
+				continue
+			}
+			select {
+			case res := <-ch:
+				if res.Err != nil || res.Conn == nil {
+					rep.Violation("lb/register/error", fmt.Sprintf("Register(%s) result: %v", how, res.Err), nil)
+					continue
+				}
+				ra := res.Conn.RemoteAddr()
+				tr.Emit(map[string]any{"ev": "Next", "addr": fmt.Sprintf("%T|%s", ra, ra.String()), "loop": res.Conn.(*conn).loop.idx + 1, "how": how})
+				rep.Eval(fmt.Sprintf("register/%d/%s", loops, how))
+			case <-time.After(5 * time.Second):
+				rep.Violation("lb/register/no-result", fmt.Sprintf("Register(%s) delivered nothing within 5 s", how), nil)
+			}
+		}
+		_ = h.eng.Stop(contextBG())
+		select {
+		case <-runErr:
+		case <-time.After(10 * time.Second):
 		}
 	}
 	if err := tr.Close(); err != nil {
